@@ -3,14 +3,14 @@
 # to /repo, run the matching check, undo it straight afterwards, and record
 # whether it was detected.   usage: tools/seeded.sh [--tier quick] [--seeds "1 2"] [id ...]
 cd /verif || exit 2
-TIER=quick; SEEDS="1"; WALL=""
-while [ $# -gt 0 ]; do case "$1" in --tier) TIER=$2; shift 2;; --seeds) SEEDS=$2; shift 2;; --wall) WALL="--wall $2"; shift 2;; *) break;; esac; done
+TIER=quick; SEEDS="1"; WALL=""; PROP=""
+while [ $# -gt 0 ]; do case "$1" in --tier) TIER=$2; shift 2;; --seeds) SEEDS=$2; shift 2;; --wall) WALL="--wall $2"; shift 2;; --prop) PROP=$2; shift 2;; *) break;; esac; done
 IDS="$@"; [ -z "$IDS" ] && IDS=$(ls seeded | grep -E '^(C1[01]|M1[01]|E1[01])-')
 if [ -n "$(git -C /repo status --porcelain)" ]; then echo "seeded.sh: /repo is not clean, refusing"; exit 2; fi
 trap 'git -C /repo checkout -q -- . 2>/dev/null' EXIT
 mkdir -p seeded/results
 for id in $IDS; do
-  prop=$(jq -r .property seeded/$id/meta.json)
+  prop=$(jq -r .property seeded/$id/meta.json); [ -n "$PROP" ] && prop=$PROP
   expect=$(jq -r '.expect // "violation"' seeded/$id/meta.json)
   for seed in $SEEDS; do
     git -C /repo apply /verif/seeded/$id/patch.diff || { echo "$id: patch does not apply"; continue; }
@@ -20,8 +20,8 @@ for id in $IDS; do
     git -C /repo checkout -q -- .
     viol=$(echo "$out" | grep -c '^VIOLATION')
     classes=$(echo "$out" | grep -o 'violation [^:]*:[^ ]*[^"]*' | cut -c1-160 | head -3 | tr '\n' ';')
-    echo "$id seed=$seed exit=$code violations=$viol time=$((t1-t0))s expect=$expect :: $classes"
-    echo "$out" > seeded/results/$id.seed$seed.log
+    echo "$id [$prop] seed=$seed exit=$code violations=$viol time=$((t1-t0))s expect=$expect :: $classes"
+    echo "$out" > seeded/results/$id.$prop.seed$seed.log
     rp=$(echo "$out" | grep -m1 -o 'replay=[^ ]*' | cut -d= -f2)
     [ -n "$rp" ] && cp "$rp" seeded/results/$id.seed$seed.replay.json 2>/dev/null
   done
